@@ -1,6 +1,29 @@
-(* Runner for property C09: wire arguments -> model -> wire result. Filled in by the C09 model. *)
+(* Runner for property C09: runs a history (as RunC10), then presents the resulting envelope
+   with each listed key (-1 = no key) to the library and to the command-line entry point.
+     c09 <fx> <base> ( op ... ) ( key ... )  ->  ( ( x<validate> x<lib verify> x<cli verify> ) ... ) ( x<op outcome> ... )
+   Bulk and HTTP verification call the same function as the command line (internal/cli.Verify),
+   so the model has one verdict for the three of them. *)
 From Coq Require Import ZArith List String Bool.
-From Verif Require Import Base.Wire.
+From Verif Require Import Base.Wire Env.Header Env.Sig Env.Lifecycle Run.RunC10.
 Import ListNotations.
+Open Scope Z_scope.
 
-Definition run_c09 (args : list V) : list V := [verr "not-implemented"].
+Definition present (fx : fixes) (e : env) (k : Z) : V :=
+  let ks := if k <? 0 then [] else [k] in
+  let ko := if k <? 0 then None else Some k in
+  VL [voutcome (validate hash_impl fx e);
+      voutcome (verify e ks);
+      match doc e with
+      | None => VS (bs "marshal")            (* the empty object does not serialise *)
+      | Some _ => voutcome (cli_verify hash_impl fx e ko)
+      end].
+
+Definition run_c09 (args : list V) : list V :=
+  match args with
+  | [VI f; VI b; VL ops; VL keys] =>
+    let fx := dec_fx f in
+    let e := final_env fx (start_env fx b) ops in
+    [VL (map (fun k => present fx e (vz k)) keys);
+     VL (map (fun r => match r with VL (x :: _) => x | _ => VS [] end) (run_wire fx (start_env fx b) ops))]
+  | _ => [verr "badargs"]
+  end.
